@@ -24,6 +24,7 @@ from . import common
 
 
 def run_property(mod, tier, seed, replay=None):
+    replay_body = json.load(open(replay)) if replay else None
     v = common.Verdict(mod.PROP, tier, seed)
     rng = random.Random(seed)
     problems_build = []
@@ -42,7 +43,7 @@ def run_property(mod, tier, seed, replay=None):
 
     # ---- cases
     if replay:
-        body = json.load(open(replay))
+        body = replay_body
         cases = [body["case"]] if "case" in body else []
         corpus_n = 0
     else:
